@@ -338,6 +338,147 @@ def run(ctx, prog):
                                  kmax, shown, ('%s·k%+d' % (ub[0], int(ub[1]))) if ub else 'no bound', cold_limit,
                                  '' if ok else ' — a valid search with a large k is refused by the cold tier, answered from the hot tier only and counted as a cold-tier failure'))
     ctx.floor('C15.R3', 'k arguments handed to the cold tier', n_k, 3, 'single, batch, timed')
+
+    # closed inventory of the request-dependent refusals on the cold tier's search chain. The timed entry point ABSORBS a cold-tier Err (books it as a tier
+    # failure, answers OK from the hot tier, and three of them open the breaker), so each refusal class below must be impossible by the time the cold tier
+    # is called: discharged by an engine-side guard (K0, DIM ⇒ EMPTY), by the candidate-count bound above (KMAX), by the request validator (FINITE) or by the
+    # query normaliser (ZERO, NORMRANGE, and FINITE/overflow of the norm). A refusal that matches no class fails: it needs a discharge and a table entry.
+    from rules import C03 as _C03
+    REFUSALS = [
+        ('EMPTY', r'^bool\[slice::is_empty\(arg:query\)\]$'),
+        ('K0', r'^cmp\[\+ arg:k == 0\]$'),
+        ('KMAX', r'^cmp\[\+ arg:k >= \d+\]$'),
+        ('DIM', r'^!cmp\[\+ .*(dimension).* - slice::len\(arg:query\) == 0\]$'),
+        ('ZERO', r'^cmp\[\+ core::f32::<impl f32>::EPSILON - simd::sum_squares_f32\(arg:query\) >= 0\]$'),
+        ('FINITE', r'^bool\[.*Iterator>::any\(slice::iter\(arg:query\), closure:.*\)\]$'),
+        ('NORMRANGE', r'^!bool\[RangeInclusive::contains\(RangeInclusive::new\(.*NORMALIZATION_NORM_SQ_MIN, .*NORMALIZATION_NORM_SQ_MAX\), .*arg:query.*\)\]$'),
+        ('PROPAGATED', r'^variant\((hnsw_backend::normalize_query_if_needed|HnswVectorIndex::knn_search\w*)\(.*\) = Break$'),
+        ('CANCELLED', r'cancel'),
+    ]
+    chain_root = ctx.body('C15.R3', 'HnswBackend::knn_search_with_ef_cancel')
+    seen_b, found_cls, n_exit = set(), {}, 0
+
+    def walk_chain(b, depth=0):
+        nonlocal n_exit
+        if b.id in seen_b or depth > 4:
+            return
+        seen_b.add(b.id)
+        o_ = flow.Origin(b)
+        for e_ in sorted(flow.err_blocks(b)):
+            ce = _C03.controlling_edge(b, e_, o_)
+            n_exit += 1
+            cls = None
+            if ce:
+                for nm_, rx_ in REFUSALS:
+                    if re.search(rx_, ce[2]):
+                        cls = nm_
+                        break
+            if cls is None:
+                ctx.inst('C15.R3', b.short, 'unclassified refusal on the cold search chain (%s)' % (ce[2][:70] if ce else 'no controlling guard'), False,
+                         'Err exit at %s under %s: the timed search path books a cold-tier refusal as a tier failure, so a new refusal reason needs an engine-side '
+                         'discharge and a table entry' % (b.loc_of(e_), ce[2][:120] if ce else '?'))
+            else:
+                found_cls.setdefault(cls, []).append(b.name)
+        for c_ in b.calls:
+            g_ = prog.resolve_local(c_.callee) if c_.callee else None
+            if g_ is not None and re.search(r'HnswBackend::|HnswVectorIndex::|hnsw_backend::|hnsw_index::', g_.id) and 'closure' not in g_.id:
+                walk_chain(g_, depth + 1)
+    if chain_root is not None:
+        for x_ in prog.family(chain_root):
+            walk_chain(x_)
+    ctx.floor('C15.R3', 'refusal exits on the cold search chain', n_exit, 12, '6 in HnswBackend::knn_search_with_ef_cancel, 1 in normalize_query_if_needed, 5 in the index')
+    ctx.inst('C15.R3', 'cold search chain', 'every refusal class has a discharge', not (set(found_cls) - {n for n, _ in REFUSALS}), 'classes found: %s' % sorted(found_cls))
+    timed = ctx.body('C15.R3', 'TieredEngine::knn_search_with_timeouts_with_ef_scoped')
+    if timed is not None and chain_root is not None:
+        tfam = prog.family(timed)
+        # K0: the engine refuses k == 0 itself
+        k0 = False
+        for b in tfam:
+            bv = flow.Origin(b, stop_at_vars=True)
+            for i_, blk in enumerate(b.blocks):
+                if blk['t']['k'] == 'switch':
+                    for tg, p_ in flow.switch_edge_predicates(b, i_, bv):
+                        if re.match(r'^cmp\[\+ (?:arg|var|cap):k == 0\]$', p_) and (tg in flow.err_blocks(b) or b.reach([tg]) & flow.err_blocks(b)) and not any(
+                                c.callee and re.search(r'HnswBackend::knn_search\w*$|HotTier::knn_search\w*$', c.callee) for c in b.calls if c.bb in b.reach([tg], avoid_blocks=flow.err_blocks(b))):
+                            k0 = True
+        ctx.inst('C15.R3', timed.short, 'refusal class K0 discharged: k = 0 refused by the engine', k0, 'guard `k == 0` leading to Err without a tier call: %s' % k0)
+        # the query handed to the cold tier is the normaliser's Ok value
+        nb = [b for b in tfam if b.calls_to('tiered_engine::normalize_query_for_search')]
+        handed = []
+        for x in tfam:
+            for c in x.calls:
+                if c.callee and not c.exp and re.search(r'HnswBackend::knn_search\w*$', c.callee) and len(c.args) > 1:
+                    cur, r_ = x, flow.render(flow.Origin(x).of_operand(c.args[1]))
+                    hops = 0
+                    while hops < 6:
+                        hops += 1
+                        m_ = re.match(r'^(?:Vec::as_slice\(|Deref::deref\(|<.*>::deref\()?(?:cap|var):(\w+)\)?$', r_)
+                        if not m_:
+                            break
+                        nm_ = m_.group(1)
+                        vl = cur.var_local(nm_)
+                        if vl and not r_.startswith('cap:') and False:
+                            pass
+                        if r_.startswith('cap:') or not vl:
+                            cur = prog.bodies.get(cur.parent)
+                            if cur is None:
+                                break
+                            vl = cur.var_local(nm_)
+                            if not vl:
+                                r_ = 'cap:' + nm_
+                                continue
+                        rs = [flow.render(flow.Origin(cur).of_local(l_)) for l_ in vl]
+                        pick = [y for y in rs if 'normalize_query_for_search' in y] or rs
+                        r_ = pick[0]
+                    handed.append((c, r_))
+        okq = bool(handed) and all('tiered_engine::normalize_query_for_search(' in r_ and '@Ok' in r_ for _, r_ in handed)
+        ctx.inst('C15.R3', timed.short, 'the query handed to the cold tier is the normaliser\'s Ok value', okq,
+                 'cold-tier query = %s' % [r_[:110] for _, r_ in handed][:2])
+        nq = ctx.body('C15.R3', 'tiered_engine::normalize_query_for_search')
+        if nq is not None:
+            on = flow.Origin(nq)
+            ss = [c for c in nq.calls if c.callee and c.callee.endswith('simd::sum_squares_f32')]
+            edges = {'finite': [], 'nonzero': [], 'inrange': [], 'outrange': []}
+            for i_, blk in enumerate(nq.blocks):
+                if blk['t']['k'] == 'switch':
+                    for tg, p_ in flow.switch_edge_predicates(nq, i_, on):
+                        if re.match(r'^bool\[f32::is_finite\(simd::sum_squares_f32\(arg:query\)\)\]$', p_):
+                            edges['finite'].append((i_, tg))
+                        if re.match(r'^!cmp\[\+ core::f32::<impl f32>::EPSILON - simd::sum_squares_f32\(arg:query\) >= 0\]$', p_):
+                            edges['nonzero'].append((i_, tg))
+                        if re.match(r'^bool\[RangeInclusive::contains\(RangeInclusive::new\(.*NORMALIZATION_NORM_SQ_MIN, .*NORMALIZATION_NORM_SQ_MAX\), simd::sum_squares_f32\(arg:query\)\)\]$', p_):
+                            edges['inrange'].append((i_, tg))
+                        if re.match(r'^!bool\[RangeInclusive::contains\(RangeInclusive::new\(.*NORMALIZATION_NORM_SQ_MIN, .*NORMALIZATION_NORM_SQ_MAX\), simd::sum_squares_f32\(arg:query\)\)\]$', p_):
+                            edges['outrange'].append((i_, tg))
+            start = [ss[0].to] if ss and ss[0].to is not None else []
+            for nm_, what in (('finite', 'FINITE / overflow: a query whose squared norm is not finite is refused (1/sqrt(inf) = 0 would turn it into the zero vector)'),
+                              ('nonzero', 'ZERO: a zero-norm query is refused')):
+                leak = not start or not edges[nm_] or flow.ok_return_reachable(nq, start, avoid_edges=edges[nm_])
+                ctx.inst('C15.R3', nq.short, 'refusal class %s' % what.split(':')[0] + ' discharged by the normaliser', not leak,
+                         ('an Ok return is reachable after the norm is computed without passing the `%s` edge — %s' % (nm_, what)) if leak else what)
+            # NORMRANGE: Ok is either the in-range edge (query as is) or the scaled copy 1/sqrt(norm_sq)
+            sq = [c for c in nq.calls if c.callee and c.callee.endswith('f32::sqrt') and 'sum_squares_f32(arg:query)' in flow.render(on.of_operand(c.args[0]))]
+            leak = not start or not edges['inrange'] or not sq or flow.ok_return_reachable(nq, start, avoid_edges=edges['inrange'], avoid_blocks=[c.bb for c in sq])
+            ctx.inst('C15.R3', nq.short, 'refusal class NORMRANGE discharged by the normaliser', not leak,
+                     'Ok only with the norm in range or through the 1/sqrt(norm²) scaling: %s' % (not leak))
+        # the normaliser's refusal ends the request before any tier
+        for b in nb:
+            for c in b.calls_to('tiered_engine::normalize_query_for_search'):
+                s_e, f_e = flow.outcome_edges(b, c)
+                bad_ = None
+                if s_e is None:
+                    bad_ = 'result not tested'
+                else:
+                    r_ = b.reach([e[1] for e in f_e]) | set(e[1] for e in f_e)
+                    for x in tfam:
+                        site = None
+                        if x is b:
+                            sites_ = [cc.bb for cc in x.calls if cc.callee and re.search(r'HnswBackend::knn_search\w*$|HotTier::knn_search\w*$|QueryHashCache::(get|find)\w*$', cc.callee)]
+                        else:
+                            sites_ = [i2 for i2, blk in enumerate(b.blocks) if any(st.get('rv', {}).get('k') == 'agg' and st['rv'].get('def') == x.id for st in blk['s'])]
+                        if any(t_ in r_ and t_ not in b.reach([e[1] for e in s_e]) for t_ in sites_):
+                            bad_ = 'a tier call is reachable on the failure edge'
+                ctx.inst('C15.R3', b.short.split('::{')[0], 'the normaliser\'s refusal ends the request before any tier', bad_ is None, bad_ or 'failure edge returns Err')
     # ------------------------------------------------------------------ R4
     ctx.rule('C15.R4', 'batch bounds: bulk_insert, bulk_load_hnsw, bulk_search, bulk_query and batch_delete (ids) each compare the batch size with '
                        'MAX_BATCH_SIZE / MAX_TOTAL_BULK_LOAD_DOCUMENTS before the engine call or the queue push')
